@@ -108,7 +108,11 @@ func runPlanRules(c *Ctx, validity, timeRules bool) {
 	{
 		const rule = "R1-snapshot-choice"
 		n := 0
-		for _, b := range plan.Blocks {
+		var planBlocks []*ssa.BasicBlock
+		for _, g := range deepFuncs(plan) {
+			planBlocks = append(planBlocks, g.Blocks...)
+		}
+		for _, b := range planBlocks {
 			for _, in := range b.Instrs {
 				phi, ok := in.(*ssa.Phi)
 				if !ok {
@@ -207,24 +211,37 @@ func runPlanRules(c *Ctx, validity, timeRules bool) {
 				cmpFact(vFieldLoad("FileInfo.MaxTXID", anyFile), token.GTR, vParam("txID"), "info.MaxTXID > txID (overshoots target)"),
 				truthFact(vCall("(time.Time).Before", vFieldLoad("FileInfo.CreatedAt", anyFile), vParam("timestamp")), false, "info.CreatedAt not before timestamp"),
 			}
+			// every filter still exists (in refresh or in a helper extracted from it)
 			for _, rj := range rejects {
-				es := factEdges(refresh, rj)
-				c.floor(rule, len(es), 1, "filter edge: "+rj.Desc)
-				for _, e := range es {
-					tgt := e.From.Succs[e.Succ]
-					good := tgt == header
-					if !good {
-						r := reachable(refresh, tgt, cutIn)
-						good = true
-						for _, ret := range returns(refresh) {
-							if r[ret.Block()] {
-								good = false
-							}
+				n := 0
+				for _, g := range deepFuncs(refresh) {
+					n += len(factEdges(g, rj))
+				}
+				c.floor(rule, n, 1, "filter edge: "+rj.Desc)
+			}
+			// an edge of refresh on which one of the reject reasons holds leads back to the scan
+			es := factEdgesAlts(refresh, 0, rejects...)
+			c.floor(rule, len(es), 1, "reject edges in refresh")
+			for _, e := range es {
+				why := "a file was rejected"
+				for _, rj := range rejects {
+					if rj.holds(edgeFact(lastInstr(e.From).(*ssa.If), e.Succ)) {
+						why = rj.Desc
+					}
+				}
+				tgt := e.From.Succs[e.Succ]
+				good := tgt == header
+				if !good {
+					r := reachable(refresh, tgt, cutIn)
+					good = true
+					for _, ret := range returns(refresh) {
+						if r[ret.Block()] {
+							good = false
 						}
 					}
-					c.check(good, rule, fmt.Sprintf("%s: after rejecting a file because %s the scan continues with the next file", fnName(refresh), rj.Desc), c.pos(lastInstr(e.From)),
-						"edge leads back to the scan loop", "the scan returns after an ineligible file although later files of the level may be eligible (a valid chain can be missed)")
 				}
+				c.check(good, rule, fmt.Sprintf("%s: after rejecting a file because %s the scan continues with the next file", fnName(refresh), why), c.pos(lastInstr(e.From)),
+					"edge leads back to the scan loop", "the scan returns after an ineligible file although later files of the level may be eligible (a valid chain can be missed)")
 			}
 			// stopping is allowed only at a file that starts beyond currentMax+1 (or exhaustion)
 		}
@@ -360,7 +377,7 @@ func runPlanRules(c *Ctx, validity, timeRules bool) {
 		// C15-R3: listings request accurate timestamps when restoring by time.
 		const rule = "R3-use-metadata"
 		n := 0
-		for _, call := range callsTo(plan, isLTXFiles) {
+		for _, call := range callsToDeep(plan, isLTXFiles) {
 			n++
 			a := namedArg(call, "useMetadata")
 			ok := false
